@@ -47,11 +47,21 @@ CLAIMED = {
         "Unbounded theorems: for every rational multiple of pi (any shift size) and all six trigonometric constructors, the rewritten result has the value of the function at the argument (table exit = f(k*pi/12), otherwise sign*(f or cofunction)(reduced argument)), recursing through trig_simplify at any depth; the 24 sin_table entries and the 14 inverse_tct entries are correct, 8 of 12 inverse_cst entries are correct (2 refuted = known findings); floor/ceiling/truncate/sign/abs on rationals and Q(i), max/min folding, kronecker_delta/levi_civita, gamma at integers and half-integers, primepi below 2^32. All other special-value rules (zeta, polygamma, beta, erf, lambertw, hyperbolics) and complex points are covered by a numeric oracle only (testing, labelled).",
         "Trusted: Coq kernel; Reals axioms for the trigonometric theorems; the table translator; extraction; known findings (listed): inverse_cst C4/C5 entries (pinned by the repository's tests), acot range convention, atan2 of symbolic arguments, floor of exact Complex, polygamma at non-positive non-integers.",
         "7 (C08)"),
+    "C09": (
+        "Rocq proof over an executable transcription of ExpandVisitor (incl. multinomial_coefficients_mpz with its unsigned loop variables) written against the arithmetic model of C03/C07 + bit-exact correspondence of result trees and hashes",
+        "Theorems: under the computed boolean guard (sums, products of every mul_expand_two shape and squares with exact coefficients over symbols, constants, function atoms and positive integer exponents; any depth; deep and shallow) expand is total, returns a well-formed tree and preserves the value in Q(i) under every valuation; equal expansions imply equal values; fuel monotonicity for all inputs; the multinomial coefficient table equals n!/prod k_i! for 2<=m<=6, n<=8 (complete kernel sweep - partial, the general loop invariant is not proved); idempotence refuted for negative powers of sums (known finding). Powers n>=3 of sums, negative powers, expand_complete and the converse of expand_decides are covered by correspondence, by the extracted `expanded` predicate run on every result, and by exact evaluation at rational points only.",
+        "Trusted: as C03; known finding (listed): expand not idempotent when a negative power of a sum is kept unexpanded.",
+        "7 (C09)"),
     "C10": (
         "Rocq proof (Coquelicot is_derive) over a rule table REGENERATED from derivative.cpp on every run (translators/tr_diffrules.py) and a model of DiffVisitor that returns construction terms + correspondence: the driver evaluates the model's term with the library's own constructors and compares with diff(e, x)",
         "Theorems: each of the 25 generated one-argument rules is the derivative of its real function on the stated domain; diff_sound: for every tree of the real fragment (rationals, pi, E, symbols, Add, Mul, Pow with any exponent, the 25 classes, atan2) and every point where it is defined, the value is differentiable in x and the returned term denotes the derivative; diff is exactly 0 when x does not occur; cached = uncached (guard: eq sub-trees identical); the xi dummy of the chain rule is fresh; shape of the chain rule for undefined functions; diff_upoly on integer/rational polynomials. Complex points, erf/gamma/zeta/polygamma/lambertw/beta rules and Derivative/Subs semantics: translator tie + numeric oracle (dual numbers over Q, central differences) only.",
         "Trusted: Coq kernel; the translator and fingerprints of hand-transcribed bodies; Reals axioms + classic (Coquelicot); known findings (listed): ACosh rule branch (fix needs a test edit), derivatives of singular constants, Subs recursion after a nan derivative.",
         "7 (C10)"),
+    "C11": (
+        "Rocq proof over an executable transcription of XReplaceVisitor / SubsVisitor / MSubsVisitor / SSubsVisitor (the `visited` cache as explicit state) against the arithmetic model + bit-exact correspondence with cache on and off",
+        "Theorems: under the computed guard, simultaneous substitution (expression-valued replacements allowed) is total, well-formed and value-preserving in Q(i): denote rho (subs e sd) = denote (rho after sd) e; cached and uncached runs agree (values and exceptions) for every visitor kind under `keys_consistent` (proof by parametricity in the threaded state + memoisation invariant); msubs = ssubs = xreplace, subs = xreplace unless the map is a single Pow key. Refuted (known findings): substituting an absent symbol or the identity map can change an un-flattened nested Add key. Function/relational/boolean constructors with changed arguments are outside the model (skipped, counted).",
+        "Trusted: as C03; known findings (listed): absent-symbol and identity substitution change a nested Add key.",
+        "7 (C11)"),
     "C12": (
         "Rocq proof over rule tables REGENERATED from eval_double.cpp on every run (translators/tr_evalrules.py): per-class formulas over abstract libm symbols, interpreted over the reals (Coquelicot/Rtrigo) + bit-exact correspondence of eval_double / single dispatch / lambda against a Flocq binary64 model",
         "Theorems: for 35 node classes the formula that the visitor evaluator AND the single-dispatch table compute, interpreted with ideal real functions, is the mathematical function of the class (inverse functions by principal range + inverted function; E**x = exp x); the single-dispatch table equals the visitor table on its 44 classes (computed) and the two evaluators return the same result on every tree over those classes in any float algebra (axiom-free). What the theorems do not reach: the rounding error of libm and of the composition - covered by a long-double reference oracle with conditioning estimate (testing, labelled).",
